@@ -62,7 +62,11 @@ type FuncContract struct {
 	AllowDead  []string // cover labels that may be unreachable under this contract (code made dead by a precondition)
 	ExitCode   *Clause // condition on the argument `code` of every os.Exit reached (the process status is code mod 256)
 	Panics     *Clause // may/must panic exactly when (old state)
+	// RestartDec: variant of a `goto L` to the label on the first statement of the body (a restart of the function,
+	// treated as a tail call to its own contract): must be non-negative and smaller than at entry
+	RestartDec *Clause
 	MayPanic   bool
+	Wraps      bool // sized-integer arithmetic of this function may wrap around (defined in Go): modelled, not an obligation
 	Assigns    []*Clause
 	HasAssigns bool
 	Ghosts     []*SpecDef
@@ -238,6 +242,8 @@ func (cs *Contracts) load(path string) error {
 			cur.Pure = true
 		case "may_panic":
 			cur.MayPanic = true
+		case "wraps":
+			cur.Wraps = true
 		case "allow_unreachable":
 			cur.AllowDead = append(cur.AllowDead, strings.Fields(rest)...)
 		case "unroll":
@@ -261,7 +267,7 @@ func (cs *Contracts) load(path string) error {
 				return fmt.Errorf("%s:%d: %v", path, l.line, err)
 			}
 			cur.Ghosts = append(cur.Ghosts, sd)
-		case "requires", "ensures", "invariant", "decreases", "assigns", "panics", "lemma", "ghostaxiom", "use", "use_end", "use_entry", "step", "exit_code":
+		case "requires", "ensures", "invariant", "decreases", "assigns", "panics", "lemma", "ghostaxiom", "use", "use_end", "use_entry", "step", "exit_code", "restart_decreases":
 			if cur == nil {
 				return fmt.Errorf("%s:%d: clause outside func", path, l.line)
 			}
@@ -317,6 +323,8 @@ func (cs *Contracts) load(path string) error {
 					return fmt.Errorf("%s:%d: step outside loop", path, l.line)
 				}
 				loop.Steps = append(loop.Steps, c)
+			case "restart_decreases":
+				cur.RestartDec = c
 			case "panics":
 				cur.Panics = c
 			case "exit_code":
